@@ -366,6 +366,7 @@ type fn struct {
 	ret      *ty
 	override bool
 	final    bool
+	owner    int // (specification) the definition that declares it
 }
 
 func (f *fn) callable() px.Type {
@@ -675,6 +676,8 @@ type spec struct {
 	// INTERFACE (no attributes, and the parent is one or — without a parent — it declares a function)
 	funcs [][]fn
 	iface []bool
+	// per type: members(true) by name: "a" attribute | "f" function
+	members []map[string]string
 	deco    bool // every definition also declares functions (op `objd`): a type without attributes is an INTERFACE
 }
 
@@ -825,21 +828,37 @@ func mkSpec(defs []def) *spec {
 		}
 		s.tparams = append(s.tparams, tps)
 		var fns []fn
+		// members(true) of the parent: name -> "a" (attribute) | "f" (function); a level's functions are put after its
+		// attributes, so a function replaces a constant of the same name
+		kind := map[string]string{}
 		if d.parent >= 0 {
 			fns = append(fns, s.funcs[d.parent]...)
+			for k, v := range s.members[d.parent] {
+				kind[k] = v
+			}
+		}
+		parentKind := map[string]string{}
+		for k, v := range kind {
+			parentKind[k] = v
+		}
+		// an attribute (or constant) cannot override a function
+		for _, a := range decls {
+			if parentKind[a.name] == "f" {
+				wf = false
+			}
 		}
 		for _, f := range d.funcs {
+			f.owner = i
 			k := -1
 			for j := range fns {
 				if fns[j].name == f.name {
 					k = j
 				}
 			}
-			// the universe: a function never shares its name with an attribute or constant of its chain
-			for _, a := range all {
-				if a.name == f.name {
-					panic(fmt.Errorf("definition %d: function %s shares its name with an attribute of the chain", i, f.name))
-				}
+			// a function of the name of an `attributes` key is a MEMBER_NAME_CONFLICT (a `constants` key is not); a function
+			// cannot override an attribute
+			if own[f.name] || parentKind[f.name] == "a" {
+				wf = false
 			}
 			if k >= 0 {
 				// a proper override: `override => true`, the inherited function not final, the type accepted by the inherited one
@@ -848,19 +867,19 @@ func mkSpec(defs []def) *spec {
 				}
 				fns[k] = f
 			} else {
-				if f.override {
+				if f.override && parentKind[f.name] != "a" {
 					wf = false
 				}
 				fns = append(fns, f)
 			}
 		}
-		for _, a := range all {
-			for _, f := range fns {
-				if a.name == f.name {
-					panic(fmt.Errorf("definition %d: attribute %s shares its name with a function of the chain", i, a.name))
-				}
-			}
+		for _, a := range decls {
+			kind[a.name] = "a"
 		}
+		for _, f := range d.funcs {
+			kind[f.name] = "f"
+		}
+		s.members = append(s.members, kind)
 		for _, n := range append(append([]string{}, d.eq...), d.ser...) {
 			for _, f := range fns {
 				if n == f.name {
@@ -1489,6 +1508,13 @@ type failure struct{ class, detail string }
 // expected value of attribute `a` for an object created by action `act`; ok=false when the specification has no opinion
 func (s *spec) expectGet(act *action, a *sattr) (val, bool) {
 	if a.kind == "c" {
+		// a function of the same name declared by a DESCENDANT of the constant's definition hides the constant from
+		// `Member` (the level's attributes are looked at first, then its functions, then the parent): no opinion
+		for _, f := range s.funcs[act.t] {
+			if f.name == a.name && f.owner != a.owner {
+				return val{}, false
+			}
+		}
 		return *a.dflt, true
 	}
 	if a.kind == "d" {
